@@ -19,7 +19,8 @@ TOL_ROW = 1e-10          # rows of b_lib - b_ref relative to max |b_ref|
 
 
 def row_cfg(row, p):
-    k, Lv = {"1D-k3-L2": ((3,), 2), "1D-k2-L3": ((2,), 3), "1D-k1-L3": ((1,), 3), "2D-2x1-L2": ((2, 1), 2)}[row]
+    k, Lv = {"1D-k3-L2": ((3,), 2), "1D-k2-L3": ((2,), 3), "1D-k1-L3": ((1,), 3), "2D-2x1-L2": ((2, 1), 2),
+             "2D-2x2-L1": ((2, 2), 1)}[row]
     return {"row": row, "k": list(k), "L": Lv, "p": [p] * len(k), "disparity": "inf", "mark_truncate": False, "maxmark": None}
 
 
@@ -27,8 +28,10 @@ def rows(tier):
     """(row configuration, geometries, mode of the alternative data forms)"""
     if tier == "quick":
         return [(row_cfg("1D-k3-L2", 1), ["none"], "per-level"), (row_cfg("1D-k3-L2", 2), ["none"], "per-level"),
-                (row_cfg("1D-k1-L3", 2), ["none"], "all")]
-    return [(row_cfg("1D-k3-L2", 1), ["none"], "all"), (row_cfg("1D-k3-L2", 2), ["none"], "all"),
+                (row_cfg("1D-k1-L3", 2), ["none"], "all"),
+                # a two-dimensional row with geometry maps (physical data, orientation-reversing map)
+                (row_cfg("2D-2x2-L1", 2), ["affine", "mirror"], "per-level")]
+    return [(row_cfg("2D-2x2-L1", 2), ["affine", "mirror"], "per-level"),(row_cfg("1D-k3-L2", 1), ["none"], "all"), (row_cfg("1D-k3-L2", 2), ["none"], "all"),
             (row_cfg("1D-k1-L3", 2), ["none"], "all"), (row_cfg("1D-k3-L2", 3), ["none"], "per-level"),
             (row_cfg("1D-k2-L3", 2), ["none"], "per-level"), (row_cfg("2D-2x1-L2", 2), ["none", "affine"], "per-level")]
 
